@@ -584,7 +584,7 @@ MC_RUNS["thorough"] = [
     ("i128ea", [1, 2, 3, 4], [4, 500, 968, 969, 2000], [1], 5, True),
     ("i256inl", [1, 2, 3, 4, 7], [0, 4, 44, 48, 49, 68, 500, 968, 969], [1, 2], 4, False),
     ("i1024inlea", [1, 2, 4, 7], [4, 500, 816, 817, 836, 968, 969, 2000], [1], 4, True),
-    ("i256inl", [1, 4, 7], [0, 4, 44, 68, 500], [1], 4, True,
+    ("i256inl", [1, 4, 7], [0, 4, 44, 68, 500], [1, 2], 4, True,
      dict(FSizes=[1, 60, 61, 104, 105, 128, 129, 1024, 1025, 3000])),
     ("i1024inlea", [1, 4, 7], [4, 500, 836, 2000], [1], 4, True,
      dict(FSizes=[1, 60, 61, 100, 895, 896, 897, 1024, 1025, 3000])),
@@ -946,7 +946,8 @@ def run(tier):
             for k in moves(lines):
                 mv[k] = mv.get(k, 0) + 1
         ev.cov["behaviours_by_relocation_kind"] = mv
-        if not all(mv.get(k) for k in ("i>b", "b>i", "*>ea", "ea>*", "inline>block", "i_block>system.data")):
+        if not all(mv.get(k) for k in ("i>b", "b>i", "*>ea", "ea>*", "inline>block", "i_block>system.data")) and not vd.viol:
+            # (a tree that already produced violations may well never reach some kind: that is a verdict, not a broken check)
             die_broken("vacuous run: some relocation kind was never exercised: %s" % mv)
         for beh, (lines, probs) in zip(behs, results):
             if lines and nontrivial(lines):
